@@ -20,7 +20,8 @@ PRen == <<"wireName", "type", "kebab-name", "X">>
 \* Rust parameter names: ordinary ones, and every value identifier the generated body itself uses or could use
 \* (a parameter so named must still travel under its own name with its own value)
 PNamePool == {"a", "name", "type_", "x2", "id", "method", "parameters", "params", "call", "method_call", "stream",
-              "reply", "error", "result", "err", "conn", "more", "oneway", "chain", "value", "self_"}
+              "reply", "error", "result", "err", "conn", "more", "oneway", "chain", "value", "self_",
+              "r#type", "r#match", "r#ref", "r#async"}
 MkN(choices, names) ==
     [i \in 1..Len(choices) |->
        [name |-> names[i], rename |-> IF choices[i].ren THEN PRen[i] ELSE "", cls |-> choices[i].cls,
